@@ -178,3 +178,63 @@ def run(ctx):
                   f.loc(t["sp"]), fn=f.name)
     else:
         ctx.anchor_missing("REPL", "match on the encoder result")
+
+
+def flow_rules(ctx):
+    """every result of decode/encode comes from the code page's own codec, over the whole input"""
+    from ..lib import call_of, symcalls
+    prog = ctx.prog
+    R = "CODEC-PATH"
+    ctx.rule(R, "CodePage::decode returns, on every path, either ascii_decode(bytes) (US-ASCII) or the result of the page's encoding_rs decoder applied to the whole input "
+                "WITHOUT BOM sniffing (Encoding::decode / decode_with_bom_removal switch encoding or drop U+FEFF on a leading byte-order mark); CodePage::encode "
+                "returns either ascii_encode or the accumulated output of the encoder loop; every chunk appended is exactly buffer[..written], appended on every path "
+                "of an iteration")
+    f = prog.fn("msi::internal::codepage::CodePage::decode")
+    S = Sym(prog, f)
+    cs = symcalls(prog, f, S)
+    codec = [c for c in cs if c[1].endswith("::ascii_decode") or re.search(r"encoding_rs::Encoding::decode\w*$", c[1])]
+    ok = bool(codec) and not (set(f.returns()) & cfg.reachable(f, 0, avoid={c[0] for c in codec}))
+    ctx.check(ok, R, "decode: every path goes through the page's decoder", "", "CodePage::decode can return without passing through ascii_decode or the code page's encoding_rs decoder "
+              "(a shortcut that bypasses the code page)", f.loc(), fn=f.name, key=R + "|decode-path")
+    whole = all(("p2" in c[2][-1]) for c in codec)
+    ctx.check(whole, R, "decode: the decoder gets the whole input", "", "decoder input is %s" % [c[2][-1] for c in codec], f.loc(), fn=f.name)
+    bom = [c for c in cs if re.search(r"encoding_rs::Encoding::(decode|decode_with_bom_removal)$", c[1])]
+    ctx.check(not bom, R, "decode: no BOM sniffing", "uses decode_without_bom_handling", "CodePage::decode calls %s, which sniffs a byte-order mark: bytes FF FE / FE FF / EF BB BF at the start switch the "
+              "decoder to UTF-16/UTF-8 (e.g. Windows1252.decode(b\"\\xff\\xfeA\\0\") == \"A\") and a leading U+FEFF is dropped under UTF-8, so encode(decode) is not the identity" % [short(c[1]) for c in bom],
+              f.loc(bom[0][3]["sp"]) if bom else f.loc(), fn=f.name, key=R + "|bom")
+    others = [c for c in cs if re.search(r"(from_utf8\w*|from_utf8_lossy|String::from_utf16\w*)$", c[1])]
+    ctx.check(not others, R, "decode: no second decoder", "", "CodePage::decode also decodes with %s" % [short(c[1]) for c in others], f.loc(), fn=f.name)
+    g = prog.fn("msi::internal::codepage::CodePage::encode")
+    Sg = Sym(prog, g)
+    gs = symcalls(prog, g, Sg)
+    enc = [c for c in gs if c[1].endswith("encode_from_utf8_without_replacement")]
+    asc = [c for c in gs if c[1].endswith("::ascii_encode")]
+    ok = len(enc) == 1 and len(asc) == 1 and not (set(g.returns()) & cfg.reachable(g, 0, avoid={enc[0][0], asc[0][0]}))
+    ctx.check(ok, R, "encode: every path goes through the page's encoder", "", "CodePage::encode can return without ascii_encode or the encoder loop", g.loc(), fn=g.name)
+    if len(enc) == 1:
+        ext = [c for c in gs if c[1].endswith("Vec::<T, A>::extend_from_slice")]
+        good = []
+        for c in ext:
+            cn, ca = call_of(Sg, c[2][1])
+            if cn and "Index" in cn and len(ca) == 2 and re.search(r"RangeTo\{call@%d:.*\.2\}" % enc[0][0], ca[1]):
+                good.append(c)
+        ctx.check(bool(ext) and len(good) == len(ext), R, "encode: every appended chunk is buffer[..written]", "%d append site(s)" % len(ext),
+                  "CodePage::encode appends something other than buffer[..written] (%d of %d append sites): stale or unwritten buffer bytes end up in the output" % (len(ext) - len(good), len(ext)),
+                  g.loc(), fn=g.name, key=R + "|chunk")
+        loops = cfg.natural_loops(g)
+        body = [bl for h, bl in loops.items() if enc[0][0] in bl]
+        if body and good:
+            body = min(body, key=len)
+            hdr = [h for h, bl in loops.items() if bl == body][0]
+            back = {b for b in body if hdr in g.succs()[b]}
+            exits = {s2 for b in body for s2 in g.succs()[b] if s2 not in body}
+            reach = cfg.reachable(g, enc[0][3]["succ"][0], avoid={c[0] for c in good})
+            ctx.check(not (reach & (back | exits)), R, "encode: the chunk is appended on every path of an iteration", "", "an iteration of the encoder loop can finish without appending its chunk",
+                      g.loc(), fn=g.name, key=R + "|chunk-every-path")
+    # the encoder is created from the page's own encoding and fed the rest of the input
+    ne = [c for c in gs if c[1].endswith("Encoding::new_encoder")]
+    nn, na = call_of(Sg, ne[0][2][0]) if len(ne) == 1 else (None, [])
+    ctx.check(len(ne) == 1 and bool(nn) and nn.endswith("CodePage::encoding") and na == ["&*p1"], R, "encode: encoder of the page's own encoding", "", "encoder created from %s" % [c[2] for c in ne], g.loc(), fn=g.name)
+    if len(enc) == 1:
+        cn, ca = call_of(Sg, enc[0][2][1])
+        ctx.check(bool(cn) and "Index" in cn and "RangeFrom{" in ca[1] and enc[0][2][3] == "c:1", R, "encode: feeds the unread rest of the string, last=true", "", "encoder input %s / last flag %s" % (ca, enc[0][2][3]), g.loc(), fn=g.name)
